@@ -318,19 +318,23 @@ class Basin(abc.ABC):
                     # referencing dataset. Don't perform any checks.
                     self._measurement_identifier_verified = True
                 else:
-                    if self.mapping == "same":
+                    basin_identifier = self.get_measurement_identifier()
+                    if basin_identifier is None:
+                        # The basin does not have a measurement identifier,
+                        # so it cannot be verified.
+                        verified = False
+                    elif self.mapping == "same":
                         # When we have identical mapping, then the measurement
                         # identifier has to match exactly.
-                        verifier = str.__eq__
+                        verified = (self.measurement_identifier
+                                    == basin_identifier)
                     else:
                         # When we have non-identical mapping (e.g. exported
                         # data), then the measurement identifier has to
                         # partially match.
-                        verifier = str.startswith
-                    self._measurement_identifier_verified = verifier(
-                        self.measurement_identifier,
-                        self.get_measurement_identifier()
-                    )
+                        verified = self.measurement_identifier.startswith(
+                            basin_identifier)
+                    self._measurement_identifier_verified = verified
             check_rid = self._measurement_identifier_verified
         else:
             check_rid = True
